@@ -2,14 +2,15 @@
   Props.C03 — property theorems for C03 (ECDSA, Schnorr and taproot-tweak checks are exact; own
   signatures verify). All statements are about the definitions of Model/Sig.lean — the ones the oracle
   executes and the harness compares with the Go code — against Spec/{Ecdsa,Bip340,TapTweak,Rfc6979}.lean.
-  `fixed := true` is the model of the CURRENT source; `fixed := false` the model of the pinned snapshot
-  (before the five `fix:` commits of this property), used by the `_counterexample` theorems.
+  `fixed := true` is the model of the CURRENT source; `fixed := false` (and `recoverLegacy`,
+  `schnorrSignLegacyPanics`) the model of the pinned snapshot (before the seven `fix:` commits of this
+  property), used by the `_counterexample` theorems.
   Hash functions are universally quantified parameters.
   Helpers: Proofs/C03.lean (model = spec), C03Field.lean (ZMod p / ZMod n reading of the Nat arithmetic,
   square roots, −7 not a cube), C03Group.lean (`SecpGroupLaw`, curve points as a group, k·P), C03Curve.lean
   (`SecpGroupLaw` from Mathlib's Weierstrass group), C03Ecdsa.lean (sign/verify/recover), C03Der.lean
   (DER), C03Schnorr.lean (BIP340 signing), C03Recover.lean (recovery on arbitrary input, nonce x ≥ n),
-  C03Tweak.lean (internal key + tweak = ∞).
+  C03Tweak.lean (internal key + tweak = ∞), C03Bip340.lean (BIP340's "−e·P" as the BIP writes it).
 -/
 import GocoinV.Proofs.C03
 import GocoinV.Proofs.C03Field
@@ -20,10 +21,13 @@ import GocoinV.Proofs.C03Der
 import GocoinV.Proofs.C03Schnorr
 import GocoinV.Proofs.C03Recover
 import GocoinV.Proofs.C03Tweak
+import GocoinV.Proofs.C03Bip340
+import GocoinV.Gen.C03Facts
 namespace GocoinV.Props.C03
 open GocoinV GocoinV.Secp GocoinV.Model GocoinV.C03 GocoinV.Proofs.C03
 
-/-! ### witnesses (also in corpus/C03/cases.txt, replayed on the real code by the harness) -/
+/-! ### witnesses (every one of them is a line of corpus/C03/cases.txt — classes `forged-small-x`, `legacy *`,
+    `theorem-witness` — and is replayed on the real code by the harness on every run) -/
 
 /-- 02 ‖ 1 : the point with x = 1 and even y -/
 def pkX1 : Bytes := [2, 0, 0, 0, 0, 0, 0, 0, 0, 0, 0, 0, 0, 0, 0, 0, 0, 0, 0, 0, 0, 0, 0, 0, 0, 0, 0, 0, 0, 0, 0, 0, 1]
@@ -43,6 +47,14 @@ def twParity : Bool := false
 /-- x(G) as an x-only internal key (G has even y, so lift_x gives G = 1·G), and the tweak n − 1 -/
 def gx32 : Bytes := [121, 190, 102, 126, 249, 220, 187, 172, 85, 160, 98, 149, 206, 135, 11, 7, 2, 155, 252, 219, 45, 206, 40, 217, 89, 242, 129, 91, 22, 248, 23, 152]
 def nMinus1 : Bytes := [255, 255, 255, 255, 255, 255, 255, 255, 255, 255, 255, 255, 255, 255, 255, 254, 186, 174, 220, 230, 175, 72, 160, 59, 191, 210, 94, 140, 208, 54, 65, 64]
+/-- 00..01 (32 bytes) and the constant hash function returning it: the smallest hash function under
+    which signing succeeds (nonce hash 1, challenge 1) — used for the non-vacuity examples of the
+    signing theorems, which quantify over every hash function -/
+def one32 : Bytes := zero32.take 31 ++ [1]
+def Hone : Hash := fun _ => one32
+/-- recovery at infinity: r = s = x(5·G) (even y, recid 0), message value 5·r mod n: s·R − m·G = ∞ -/
+def r5 : Nat := 21505829891763648114329055987619236494102133314575206970830385799158076338148
+def m5 : Bytes := [237, 187, 87, 129, 130, 35, 162, 224, 172, 135, 67, 185, 51, 205, 149, 204, 138, 185, 151, 181, 77, 232, 5, 150, 250, 76, 43, 16, 123, 68, 175, 116]
 /-- 04 ‖ 1 ‖ 1 : not on the curve -/
 def pkOff : Bytes := 4 :: (zero32.take 31 ++ [1] ++ zero32.take 31 ++ [1])
 /-- 02 ‖ 0 : x = 0 has no square root of x³+7 -/
@@ -86,6 +98,58 @@ example : Spec.Ecdsa.Accepts pkX1 sigRR msgR := by
 theorem schnorr_accept_iff (H : Hash) (pk sig msg : Bytes) :
     Sig.schnorrVerify H pk sig msg = Spec.Bip340.verify H pk sig msg :=
   schnorr_eq H pk sig msg
+
+/-- The step "R = s·G − e·P" AS THE BIP WRITES IT. `Spec.Bip340.verify` (above) writes −e·P as
+    ((n − e) mod n)·P, which is the shape of the Go code; `Spec.Bip340.verifyText` adds the NEGATION of
+    the point e·P, as BIP340 (and the harness's math/big reference) does. The two coincide — and so
+    `btc.SchnorrVerify` (model) is BIP340 verification to the letter — for every key whose lifted point
+    has order dividing n.
+    -- OPEN: schnorr_accept_text without `hord`. Every point of secp256k1 has order n (the group has
+    prime order n), but that is the point count #E(F_p) = n, not proved in this development (the same
+    open fact as in `recover_verifies_partial`); for a concrete key `hord` is a kernel evaluation. On
+    the real code the text form is what the reference judges, on every schnorr case of every run. -/
+theorem schnorr_accept_text_partial (H : Hash) (pk sig msg : Bytes)
+    (hord : ∀ P, liftX (beVal pk) = some P → mul n (some P) = none) :
+    Sig.schnorrVerify H pk sig msg = Spec.Bip340.verifyText H pk sig msg := by
+  rw [schnorr_accept_iff]; exact bip340_verify_eq_text H pk sig msg hord
+
+/-- non-vacuity: the key x(G) (lift_x gives G itself, of order n) -/
+example : ∀ P, liftX (beVal gx32) = some P → mul n (some P) = none := by
+  have hG : liftX (beVal gx32) = G := by decide +kernel
+  intro P hP
+  rw [hG] at hP
+  rw [← hP]; exact mul_n_G
+
+/-- BIP340 "fail if r ≥ p", stated outright for the model: a signature whose first 32 bytes, read as an
+    integer, are not below p is refused for every key, message and hash function — in particular
+    r = x(R) + p for a nonce point with a tiny x. (Corollary of `schnorr_accept_iff`; in the model this is
+    the line `rx := beVal (sig.take 32)` — "raw limbs, never normalised" — compared with a value < p.) -/
+theorem schnorr_refuses_r_ge_p (H : Hash) (pk sig msg : Bytes) (h : beVal (sig.take 32) ≥ p) :
+    Sig.schnorrVerify H pk sig msg = false := by
+  rw [schnorr_accept_iff]
+  unfold Spec.Bip340.verify
+  split
+  · rfl
+  · cases liftX (beVal pk) with
+    | none => rfl
+    | some P => simp only [h, true_or, ↓reduceIte]
+
+/-- non-vacuity: r = p itself (32 bytes) -/
+example : beVal (pkXplusP.drop 1) ≥ p := by decide +kernel
+
+/-- SOURCE FACT behind the previous theorem, regenerated from /repo/lib/secp256k1/schnorr.go on every run
+    (go/cmd/gen_c03 → Gen/C03Facts.lean) and re-checked here by the kernel: in `SchnorrVerify` the Field
+    that receives `SetB32(sig[:32])` is used in exactly two ways — that load and `Equals` — i.e. it is
+    never normalised (reduced mod p) and never compared through anything else. This is how the Go code
+    implements "fail if r ≥ p" (raw limbs of a value ≥ p never equal the normalised x(R)), and it is the
+    one acceptance condition of this property that NO input can discriminate on the real function: a
+    signature with r = x(R) + p needs a nonce point with x(R) < 2^32 + 977 for a key that satisfies a hash
+    equation. The harness reaches it only through its re-assembly of SchnorrVerify's steps with an
+    injected challenge (class `schnorre/*-r-plus-p`); an edit of the real function that normalises the
+    Field changes this fact and this theorem stops compiling. -/
+theorem schnorr_sig_r_compared_raw :
+    Gen.C03Facts.schnorrSigRxRaw = true ∧ Gen.C03Facts.schnorrSigRxUses = ["Equals", "SetB32"] := by
+  decide
 
 /-- BIP341: `btc.CheckPayToContract` (model of the current code) returns exactly the BIP341 tweak
     check: 32-byte liftable internal key, tweak below n, Q = lift_x(P) + t·G finite, x(Q) equal to the
@@ -155,7 +219,11 @@ def msgHi : Bytes := [0, 0, 0, 0, 0, 0, 0, 0, 0, 0, 0, 0, 0, 0, 0, 1, 69, 81, 35
 /-- `Signature.Verify` compares r with x(R) REDUCED modulo n: whenever s is in range and the point
     u1·G + u2·Q the verifier computes is the finite point (x, y), the signature is accepted exactly
     when r = x mod n (and r ≠ 0) — in particular for n ≤ x < p it is r = x − n that is accepted, and
-    x itself (≥ n) that is refused. -/
+    x itself (≥ n) that is refused.
+    (This only unfolds `sigVerify`/`recompute` — the model compares `r == x % n` by definition; it is
+    kept as the readable statement of what the model says about the reduction. The content — that this
+    IS the ECDSA acceptance predicate — is `ecdsa_accept_iff` together with the `pkHi` examples below,
+    and the tie to the real code is the harness classes `rx-ge-n-*`, `rx-twin-*`, `theorem-witness`.) -/
 theorem verify_reduces_x_mod_n (r s m x y : Nat) (Q : Point) (hs0 : 0 < s) (hsn : s < n)
     (hpt : Sig.ecmult Q ((Sig.modInvN s * r % n : Nat) : Int) (Sig.modInvN s * m % n) = some (x, y)) :
     Sig.sigVerify true r s Q m = true ↔ (r ≠ 0 ∧ r = x % n) := by
@@ -210,6 +278,14 @@ theorem recover_verifies_partial (r s recid : Nat) (hb : Bytes) (Q : Nat × Nat)
     s = r, message value 0, so the recovered key is the nonce point itself) -/
 example : Sig.recoverPublicKey (xHi - n) (xHi - n) zero32 3 = some (some (xHi, yHi)) := by decide +kernel
 example : mul n (recoverNonce (xHi - n) 3) = none := by decide +kernel
+
+/-- `RecoverPublicKey` (current code) never hands out the point at infinity as a key: when the
+    recovered point s·R − m·G is ∞ (r = x(k·G), m = s·k: no discrete logarithm needed, choose k) it
+    returns nil. (The pinned snapshot returned a non-nil key object with `Infinity` set and left-over
+    coordinates: `recover_infinity_counterexample`.) -/
+theorem recover_never_infinity (r s recid : Nat) (hb : Bytes) :
+    Sig.recoverPublicKey r s hb recid ≠ some none :=
+  recover_ne_infinity r s recid hb
 
 /-! ### own signatures -/
 
@@ -268,9 +344,22 @@ example : (Sig.sign 1 (beVal [1]) 1).map (fun t => decide (t.1 ≠ 0)) = some tr
 
 /-- `Signature.RecoverPublicKey(hash, recid)` on an output (R, S, recid) of `Sign` returns the signer's
     public key d·G (R ≠ 0 as above). -/
-theorem recover_sign (d k r s recid : Nat) (hb : Bytes)
+theorem recover_sign (d k r s recid : Nat) (hb : Bytes) (hd0 : 0 < d) (hdn : d < n)
     (h : Sig.sign d (beVal hb) k = some (r, s, recid)) (hr : r ≠ 0) :
-    Sig.recoverPublicKey r s hb recid = some (mul d G) :=
+    ∃ Q, mul d G = some Q ∧ Sig.recoverPublicKey r s hb recid = some (some Q) := by
+  have hrec := recover_sign_core d k r s recid hb h hr
+  cases hm : mul d G with
+  | none => exact absurd hm (mul_G_ne_none d hd0 hdn)
+  | some Q => exact ⟨Q, rfl, by rw [hrec, hm]; rfl⟩
+
+example : 0 < 1 ∧ 1 < n ∧ (Sig.sign 1 (beVal [1]) 1).map (fun t => decide (t.1 ≠ 0)) = some true := by
+  decide +kernel
+
+/-- the same for ANY secret-key number d (`Sign` reduces it mod n): the recovered key is d·G, and nil
+    when d·G = ∞ (d ≡ 0 mod n; the current code refuses a result at infinity). -/
+theorem recover_sign_any_key (d k r s recid : Nat) (hb : Bytes)
+    (h : Sig.sign d (beVal hb) k = some (r, s, recid)) (hr : r ≠ 0) :
+    Sig.recoverPublicKey r s hb recid = (mul d G).map some :=
   recover_sign_core d k r s recid hb h hr
 
 /-- `secp256k1.SchnorrSign` only hands out signatures that `SchnorrVerify` accepts for the x-only
@@ -292,8 +381,22 @@ theorem bip340_sign_matches_partial (H : Hash) (hH : ∀ b, (H b).length = 32) (
     Sig.schnorrSign H m sk a = Spec.Bip340.sign H m sk a :=
   schnorrSign_eq H hH m sk a hsk hk
 
-example : ∃ H : Hash, (∀ b, (H b).length = 32) ∧ beVal (signNonceHash H zero32 (zero32.take 31 ++ [1]) zero32) < n :=
-  ⟨fun _ => zero32, fun _ => (by decide : zero32.length = 32), by decide +kernel⟩
+/-- non-vacuity of `bip340_sign_matches_partial` AND `schnorr_sign_verifies` on an instance where a
+    signature comes out (secret key 1, H = the constant 00..01: nonce hash 1 < n, k' = 1, challenge 1):
+    the hypotheses hold and `SchnorrSign` returns a signature (both sides of the equality are `some`). -/
+example : (∀ b, (Hone b).length = 32) ∧ one32.length = 32 ∧
+    beVal (signNonceHash Hone zero32 one32 zero32) < n ∧
+    (Sig.schnorrSign Hone zero32 one32 zero32).isSome = true :=
+  ⟨fun _ => (by decide : one32.length = 32), by decide, by decide +kernel, by decide +kernel⟩
+
+/-- For ALL byte strings: a secret key that is not exactly 32 bytes long is refused (nil), as BIP340
+    (sk = 32-byte array) requires — so together with `bip340_sign_matches_partial` the signer is covered
+    for every (message, key, aux). -/
+theorem schnorr_sign_key_length (H : Hash) (m sk a : Bytes) (h : sk.length ≠ 32) :
+    Sig.schnorrSign H m sk a = none := by
+  unfold Sig.schnorrSign; rw [if_pos h]
+
+example : ([1] : Bytes).length ≠ 32 := by decide
 
 /-- `btc.HMAC_Init/Write/Finalize` is RFC 2104 HMAC for every key whose length is not exactly 64
     (a 64-byte key is hashed by the Go code, used as it is by RFC 2104; RFC 6979 only uses 32-byte keys). -/
@@ -343,6 +446,12 @@ theorem ecdsaSignRfc_nonce (H : Hash) (hH : ∀ b, (H b).length = 32) (priv hash
         exact ⟨recid, rfl⟩
   · simp only [hv, ↓reduceIte] at h
     simp at h
+
+/-- non-vacuity of `ecdsaSignRfc_nonce` on an instance where a signature comes out (key 1, hash 00..01,
+    H = the constant 00..01, so the first RFC 6979 candidate is 1) -/
+example : (∀ b, (Hone b).length = 32) ∧ one32.length = 32 ∧
+    (Sig.ecdsaSignRfc Hone one32 one32).isSome = true :=
+  ⟨fun _ => (by decide : one32.length = 32), by decide, by decide +kernel⟩
 
 /-! ### the pinned snapshot was NOT exact: counterexamples (repaired by the `fix:` commits) -/
 
@@ -397,5 +506,22 @@ theorem schnorr_short_input_counterexample (H : Hash) :
     Sig.schnorrVerify? true H zero32 [] zero32 = some false ∧
     Sig.schnorrVerify? true H [] (zero32 ++ zero32) zero32 = some false := by
   refine ⟨?_, ?_, ?_, ?_⟩ <;> simp [Sig.schnorrVerify?, Sig.parseXOnly, zero32]
+
+/-- Pinned snapshot: `SchnorrSign` had no length test on the secret key; for the one-byte key 01 (public
+    point G, even Y) the loop `t[i] ^= d[i]` ran past the end of the key: index-out-of-range panic
+    (replayed on the pinned code: "index out of range [1] with length 1"). The current code returns nil
+    for every hash function, message and aux. -/
+theorem schnorr_sign_short_key_counterexample :
+    Sig.schnorrSignLegacyPanics [1] = true ∧
+    ∀ (H : Hash) (m a : Bytes), Sig.schnorrSign H m [1] a = none :=
+  ⟨by decide +kernel, fun H m a => schnorr_sign_key_length H m [1] a (by decide)⟩
+
+/-- Pinned snapshot: `RecoverPublicKey` on r = s = x(5·G), message value 5·r, recid 0 computed the point
+    at infinity (s·R − m·G = ∞) and RETURNED it (a non-nil key object with `Infinity` set and left-over
+    coordinates, under which the signature does not verify). The current code returns nil. -/
+theorem recover_infinity_counterexample :
+    Sig.recoverPublicKeyLegacy r5 r5 m5 0 = some none ∧ Sig.recoverPublicKey r5 r5 m5 0 = none := by
+  have h : Sig.recoverPublicKeyLegacy r5 r5 m5 0 = some none := by decide +kernel
+  exact ⟨h, by rw [recoverPublicKey_eq, h]⟩
 
 end GocoinV.Props.C03
